@@ -11,9 +11,14 @@ CONSTANTS
   CwdVia = {"real", "link"}
   OcNames = {"rel"}
   CwdSource = "getcwd"
+  EpochEnvs = {"unset", "0", "normal"}
+  ZeroMeansUnset = FALSE
+  PrevFiles = {"none", "longer"}
+  Truncates = TRUE
   TieBreak = "signature"
 INVARIANT OutputPure
 INVARIANT EpochWins
+INVARIANT NothingStale
 INVARIANT EmbedsArgumentsOnly
 INVARIANT IffTotal
 INVARIANT TotalWithTieBreak
